@@ -1,8 +1,8 @@
 #!/bin/sh
-# usage: tools/batch_mutants.sh "C10/2 C17/1 ..."   (directories under /tmp/mut/out)
+# usage: tools/batch_mutants.sh "C10/2 C17/1 ..."   (directories under ${MUTOUT:-/tmp/mut/out})
 for m in $1; do
   id=${m%/*}
   echo "== $m"
-  timeout 900 /verif/tools/trymutant.sh /tmp/mut/out/$m/patch.diff $id 2>&1 | tail -2
+  timeout 900 /verif/tools/trymutant.sh ${MUTOUT:-/tmp/mut/out}/$m/patch.diff $id 2>&1 | tail -2
   git -C /repo checkout -- . 2>/dev/null
 done
